@@ -60,3 +60,7 @@ def pyGetDate (o : Option PyDate) : PyDate := o.getD default
 def pyGetNum {α} [Inhabited α] (o : Option α) : α := o.getD default
 
 end FinVerif
+
+/-- `np.maximum` / `np.minimum` / `max` / `min` on doubles (NaN handling is not modelled). -/
+def fmax (a b : Float) : Float := if a < b then b else a
+def fmin (a b : Float) : Float := if b < a then b else a
